@@ -12,6 +12,9 @@ HISTORY = {
     'C17': 'first trial: MISSED (only `maskGo`/`maskAsm` were exercised, the change is in the `mask` dispatcher) → `VerifMask` export, dispatcher cases with empty pieces, zero-length reads in wire-in scripts',
     'C18': 'first trial: MISSED → netconn suite sets deadlines (past / near future) from another goroutine while the call is blocked',
     'C20': 'first trial: reported without a failing input (sched replay disagreed) → life scenarios with a Close whose frame cannot be marshalled, goroutine snapshot taken when Close returns (before the harness cleans up)',
+    'R2-C04': 'second round, first trial: MISSED (the sweep of cut offsets used only 7-bit frame lengths) → header-region cut sweep over every length encoding and order (16-bit first on a fresh connection, after a 64-bit one, after a multiple of 256), both roles, both endings',
+    'R2-C07': 'second round, first trial: MISSED (the suite always read a message to its end before the next one) → histories that start the next message after reading only a prefix of a small compressed one (`msgnf` / `plainnf`); the replay then reports `put-by-non-holder`',
+    'R2-C02': 'second round; the sub-agent arrived at the same slip as `seeded/C01` independently',
     'R2-C05': 'second round. The change (partly received payload returned still masked when a Read fails mid-frame) is a C04 matter — the unmasking repair 79af380 reverted — and is caught by C04; C05 (write-side concurrency) rightly does not react',
     'R2-C09': 'second round, first trial: MISSED → life scenarios `closeread-twice-*` (the context of a second CloseRead call must be cancelled, too)',
     'R2-C10': 'second round, first trial: MISSED → scenario `emptyfin-read-then-cancel` (message ending in an empty final continuation frame) and a general trace check: after every call that returned nil the last arm event of each side must be the re-arm with Background',
